@@ -5,7 +5,8 @@
    the key maps of the two JSON forms, and the directory discipline. *)
 From Coq Require Import Reals Lra List Bool.
 From PV Require Import Num PyBase Model.Component Model.Mixture Model.Permeance Model.Solver Model.Process Model.Curve
-  Model.Persist Model.PersistCurve Lemmas.Composition Lemmas.Permeance Lemmas.Process Lemmas.Persist Lemmas.PersistCurve.
+  Model.Persist Model.PersistCurve Lemmas.Composition Lemmas.Permeance Lemmas.Process Lemmas.Persist Lemmas.PersistCurve Lemmas.PersistSet.
+From Coq Require Import Sorted.
 Import ListNotations.
 Local Open Scope R_scope.
 Local Open Scope bool_scope.
@@ -89,7 +90,42 @@ Theorem C17_conditions_json_rejects (o : JObj ROps) A T0 m0 xv xt tp pp :
   ~ (0 <= xv <= 1) -> cond_from_json ROps o = Err ValueError.
 Proof. exact (cond_json_rejects o A T0 m0 xv xt tp pp). Qed.
 
+(* ---- curve sets: DiffusionCurveSet.load groups the lines of a file by curve identifier ---- *)
+(* curves saved one after the other under ascending identifiers load back as the list of those curves *)
+Theorem C17_curve_set_roundtrip (PP : PPfun ROps) (m : Mixture ROps) mem mix com (ics : list (nat * Curve ROps)) :
+  StronglySorted lt (map fst ics) -> Forall (fun ic => curve_storable (snd ic)) ics ->
+  exists tables, mapM (fun ic => save_curve ROps (fst ic) mem mix com (snd ic)) ics = Ok tables /\
+    load_set ROps PP m (concat tables) = Ok (map snd ics).
+Proof. exact (curve_set_roundtrip PP m mem mix com ics). Qed.
+
+(* the loaded set depends only on each identifier's own lines, in their file order: interleaving the curves' lines in the
+   file changes nothing, and the curves come back in ascending identifier order *)
+Theorem C17_curve_set_interleaving (PP : PPfun ROps) (m : Mixture ROps) (t t' : list (list (Cell ROps))) :
+  (forall k, group_of ROps k t' = group_of ROps k t) -> load_set ROps PP m t' = load_set ROps PP m t.
+Proof. exact (load_set_interleaving ROps PP m t t'). Qed.
+
+(* a file written by DiffusionCurve.save (one identifier) is a set of exactly that curve *)
+Theorem C17_curve_set_single (PP : PPfun ROps) (m : Mixture ROps) k (t : list (list (Cell ROps))) :
+  t <> [] -> Forall (fun r => row_id ROps r = k) t ->
+  load_set ROps PP m t = (c <- load_curve ROps PP m t ;; Ok [c]).
+Proof. exact (load_set_single ROps PP m k t). Qed.
+
+Example C17_curve_set_nonvacuous :
+  let c := Build_Curve ROps 333 [RC (1/4) Weight; RC (3/4) Weight] [(1, 2); (3, 4)] (Some 200) None
+             [(RP 1 KG, RP 2 KG); (RP 3 KG, RP 4 KG)] in
+  StronglySorted lt (map fst [(2%nat, c); (5%nat, c)]) /\ Forall (fun ic => curve_storable (snd ic)) [(2%nat, c); (5%nat, c)].
+Proof.
+  cbn. split; [repeat constructor|].
+  assert (H : curve_storable (Build_Curve ROps 333 [RC (1/4) Weight; RC (3/4) Weight] [(1, 2); (3, 4)] (Some 200) None
+             [(RP 1 KG, RP 2 KG); (RP 3 KG, RP 4 KG)])).
+  { unfold curve_storable. cbn. repeat split; try discriminate; try reflexivity;
+    repeat (constructor; try (cbn; repeat split; try reflexivity; lra)). }
+  constructor; [exact H|]. constructor; [exact H|]. constructor.
+Qed.
+
 Print Assumptions C17_process_roundtrip.
+Print Assumptions C17_curve_set_roundtrip.
+Print Assumptions C17_curve_set_interleaving.
 Print Assumptions C17_fresh_directory.
 Print Assumptions C17_curve_roundtrip.
 Print Assumptions C17_function_json_roundtrip.
